@@ -358,8 +358,21 @@ def mixed(case, ctx):
 
 def int_rule(v, ctx):
     """digit strings / ints in numeric and non-numeric fields, no metadata present."""
-    from bibtexparser.middlewares import AddEnclosingMiddleware
+    from bibtexparser.middlewares import AddEnclosingMiddleware, RemoveEnclosingMiddleware
     out = []
+    if type(v) is int:
+        # removal on an int: there is no enclosing - value untouched, 'no-enclosing' recorded, adding back with reuse restores it
+        for inplace in (False, True):
+            lib = build.library([["entry", "article", "k", [["year", v], ["title", "{T}"]], "raw", 0]])
+            st, r = run(RemoveEnclosingMiddleware(allow_inplace_modification=inplace), lib)
+            ctx.ran()
+            ctx.mon("no_raise")
+            if st == "raise":
+                return [Violation("raised", f"C10:remove-raised:int:{r.split(':')[0]}", dict(value=v, error=r))]
+            e = r.entries[0]
+            md = e.parser_metadata.get("removed_enclosing") or {}
+            if type(e["year"]) is not int or e["year"] != v or e["title"] != "T" or md.get("year") != "no-enclosing" or md.get("title") != "{":
+                return [Violation("remove-rule", "C10:remove-rule:int", dict(value=v, got=srepr(e.fields), metadata=srepr(md)))]
     for (d, reuse, ei) in OPTS:
         for inplace in (False, True):
             lib = build.library([["entry", "article", "k", [["year", v], ["title", v], ["volume", v]], "raw", 0]])
